@@ -1,4 +1,4 @@
-use featlib::{consts, data, flow, generics, implicit_fns, types};
+use featlib::{consts, data, flow, generics, implicit_fns, literals, types};
 
 fn use_consts(k: felt252) -> felt252 {
     let (a, b) = consts::PAIR;
@@ -70,4 +70,17 @@ fn use_data(k: felt252, v: u64, x: u128, s: i64) -> felt252 {
     let same = point == types::Point { x: c, y: k };
     let ff: felt252 = f.into();
     a.into() + b.into() + c + d.len().into() + e.low.into() + ff + p.into() + t.into() + *g.at(1) + bag.tag + bag.items.len().into() + if same { 1 } else { 0 }
+}
+
+fn use_literals(x: u256, flag: bool, n: u32) -> felt252 {
+    let a = literals::big(x);
+    let p = literals::origin(flag);
+    let t = literals::third(n);
+    let (q, (r, s)) = literals::pair();
+    let m = match literals::maybe() {
+        Option::Some(v) => v.low,
+        Option::None => 0,
+    };
+    let sf: felt252 = s.into();
+    a.low.into() + p.x + p.y + t.into() + q.into() + r.into() + sf + m.into()
 }
